@@ -653,7 +653,7 @@ def replay(ctx, path):
     r = json.load(open(path))
     print(json.dumps({k: (v if len(str(v)) < 400 else str(v)[:400] + "...") for k, v in r.items()}, indent=1))
     ctx.audit(extra_props=["C11"])
-    if "problem_line" not in r or r["problem_line"].endswith("..."):
+    if not r.get("problem_line") or r["problem_line"].endswith("...") or (r.get("knotscale") and not r.get("scale_line")):
         run(ctx); return
     exe = build(ctx, "shipped")
     if not exe:
